@@ -159,7 +159,12 @@ func DrawSimCase(ch Chooser, prop string) *SimCase {
 	case 4:
 		gen.ApplyTypeVariants(c.Prog, ch.Intn)
 	case 5, 6, 7:
-		if prop == "C01" || prop == "C02" || prop == "C03" {
+		if prop == "C01" && stage == 7 && ch.Intn(3) == 1 {
+			// name-level edits: a use or a binder respelled as another name of the program
+			if n := gen.MutateNames(c.Prog, ch.Intn, 2); n > 0 {
+				c.Mutated = fmt.Sprintf("names: %d occurrence(s) respelled", n)
+			}
+		} else if prop == "C01" || prop == "C02" || prop == "C03" {
 			c.Mutated = gen.Mutate(c.Prog, ch.Intn)
 		}
 	}
